@@ -359,6 +359,16 @@ def selecting_network(ctx):
             m = pmatch("Q_l.append((Q_x, self.valids[Q_i]))", init[0].call)
             xo = ex.obj(m["x"])
             ok = m["i"] == loops(init[0])[0][0][0] and xo is not None and xo.ctor == ("call", ("n", "Array"), (("list", ("i", pat("self.inputs"), m["i"])),), ())
+        if not init:
+            # the same level written as a comprehension (the extractor folds `x = []; for ..: x.append(e)` into one)
+            for o in ex.objects.values():
+                c = o.ctor
+                if c[0] == "lc" and c[1] == "list" and len(c[3]) == 1 and not c[3][0][2] and c[3][0][1] == pat("range(self.n)") and c[2][0] == "tuple" and len(c[2]) == 3:
+                    bnd = c[3][0][0]
+                    xo = ex.obj(c[2][1])
+                    xc = xo.ctor if xo is not None else c[2][1]
+                    if c[2][2] == ("i", pat("self.valids"), bnd) and xc == ("call", ("n", "Array"), (("list", ("i", pat("self.inputs"), bnd)),), ()):
+                        ok = True
         ctx.check(ok, "C38.network.first-level", init[0].site if init else fn.site, "StableSelectingNetwork.level0", found="; ".join(tstr(e.call) for e in init) or "none", required="level 0 is [(Array([inputs[i]]), valids[i]) for i in range(n)], in input order")
         app = [e for e in ex.of(Effect) if pmatch("Q_l.append((Q_m, Q_c))", e.call) and pmatch("Q_l.append((Q_m, Q_c))", e.call)["m"] == merged[0].lhs[1]]
         ok = len(app) == 1 and pmatch("Q_l.append((Q_m, Q_c))", app[0].call)["c"] == tot[0].lhs
